@@ -116,11 +116,12 @@ class DLISFile:
         for idx_lf, logical_file in enumerate(self.logical_files):
             yield logical_file.file_header_item.parent
 
-            yield from logical_file._eflr_sets[eflr_types.OriginSet].values()
+            # sets without items (e.g. left behind by a rejected add_* call) make no record and are skipped
+            yield from (s for s in logical_file._eflr_sets[eflr_types.OriginSet].values() if s.n_items)
 
             for set_type, set_dict in logical_file._eflr_sets.items():
                 if set_type not in (eflr_types.FileHeaderSet, eflr_types.OriginSet):
-                    yield from set_dict.values()
+                    yield from (s for s in set_dict.values() if s.n_items)
 
             yield from logical_file._no_format_frame_data
 
@@ -165,11 +166,14 @@ class DLISFile:
                 ]
             )
 
+        # number of logical records the generator will yield: per logical file its header, its (non-empty) sets, ...
         n = 0
-        for eflr_set_type in self._eflr_sets:
-            n += len(list(self._eflr_sets.get_all_items_for_set_type(eflr_set_type)))
-
         for idx_lf, logical_file in enumerate(self.logical_files):
+            n += 1
+            for set_dict in logical_file._eflr_sets.values():
+                n += sum(1 for eflr_set in set_dict.values() if eflr_set.n_items)
+
+            # ... its frame data and no-format data records
             for mfd in multi_frame_data_objects[idx_lf]:
                 n += len(mfd)
             n += len(logical_file._no_format_frame_data)
